@@ -142,6 +142,39 @@ func (m *MACCommandSet) decode(buffer []byte, pos *int) error {
 	}
 }
 
+// decodeBounded decodes the MAC commands found in buffer[*pos:end]. Decoding
+// stops at the first unknown CID or at a command that does not fit in the
+// region; *pos is left at the first byte that was not decoded and never
+// moves past end. This clears the contents.
+func (m *MACCommandSet) decodeBounded(buffer []byte, pos *int, end int) error {
+	if pos == nil {
+		return ErrNilError
+	}
+	if end > len(buffer) || *pos > end {
+		return ErrBufferTruncated
+	}
+	m.Clear()
+	for *pos < end {
+		cid := CID(buffer[*pos])
+		var newCommand MACCommand
+		if m.message.Uplink() {
+			newCommand = NewUplinkMACCommand(cid)
+		} else {
+			newCommand = NewDownlinkMACCommand(cid)
+		}
+		if newCommand == nil || *pos+newCommand.Length() > end {
+			break
+		}
+		if err := newCommand.decode(buffer, pos); err != nil {
+			return err
+		}
+		if !m.Add(newCommand) {
+			return ErrInvalidSource
+		}
+	}
+	return nil
+}
+
 // Copy will copy the contents of the other command set. If there's not enough
 // room it will return false
 func (m *MACCommandSet) Copy(other MACCommandSet) bool {
